@@ -119,7 +119,7 @@ class State:
         if n == "acq":
             return [("SAL", A[0]), ("SW", A[0])]
         if n == "acqt":
-            return [("SAL", A[0]), ("SW", A[0]), ("L", "log", "T0")]
+            return [("SAL", A[0]), ("SW", A[0], True), ("L", "semres")]
         if n == "rel":
             return [("SU", A[0])]
         if n == "cap":
@@ -209,6 +209,9 @@ class State:
             a.log.append("o%d" % self.mutex[m[2]]["owner"])
         elif k == "cap":
             a.log.append("c%d" % self.sem[m[2]]["v"])
+        elif k == "semres":
+            a.log.append("T1" if a.res else "T0")
+            a.res = None
         elif k == "cvres":
             if m[2]:
                 a.log.append("W1" if a.res else "W0")
@@ -304,7 +307,9 @@ class State:
                 continue
             t = m[0]
             mc = 1
-            if t in ("MW", "SW", "BW"):
+            if t == "SW" and len(m) > 2 and self.prog.get("normal_mode"):
+                en = True   # outside the checker's model a timed acquire may also time out
+            elif t in ("MW", "SW", "BW"):
                 en = a.granted
             elif t == "CW":
                 en = a.granted or m[3]
@@ -364,6 +369,13 @@ class State:
         t = m[0]
         if t == "MAL":
             self._lock_async(a, self.mutex[m[1]])
+        elif t == "SW" and len(m) > 2:
+            if a.granted:
+                a.res = False
+            else:
+                self.sem[m[1]]["q"].remove(pid)
+                a.res = True
+            a.granted = False
         elif t in ("MW", "SW", "BW"):
             a.granted = False
         elif t == "MT":
